@@ -148,6 +148,14 @@ def minimise(lib, site, front, options, key):
         res = wrap_and_run(small, front, options)
         return small if any(p[0] == key for p in judge(small, res, front)) else lib
     f, k = plan[site]["f"], plan[site]["k"]
+    if f.get("tmpl"):
+        # the instantiations of one template stay together (their names depend on the whole list)
+        small = dict(lib, classes=[], funcs=[copy.deepcopy(g) for g in lib["funcs"] if g.get("tmpl") and g["name"] == f["name"]])
+        try:
+            res = wrap_and_run(small, front, options)
+            return small if any(p[0] == key for p in judge(small, res, front)) else lib
+        except core.HarnessError:
+            return lib
     small = dict(lib, classes=[], funcs=[dict(copy.deepcopy(f), calls=[copy.deepcopy(f["calls"][k])])])
     res = wrap_and_run(small, front, options)
     probs = judge(small, res, front)
@@ -172,6 +180,9 @@ def minimise(lib, site, front, options, key):
                 c["outputs"].pop(nm, None)
         budget -= 1
         res = wrap_and_run(cand, front, options)
+        if res["stage"] == "harness":
+            i += 1                      # the reduced library is not a valid subject: keep the parameter
+            continue
         if any(pp[0] == key for pp in judge(cand, res, front)):
             best = cand
             fn = best["funcs"][0]
@@ -239,6 +250,18 @@ def run_engine(ctx, front, configs, nlibs, lang_choices, asan=False, **libkw):
         for key, case, note in out["problems"]:
             ctx.failure(key, case, expected="stream predicted by the reference model", observed=note, note=note)
     ctx.extra["libraries_built"] = ctx.extra.get("libraries_built", 0) + len(jobs)
+
+
+def run_template_family(ctx, front, per_shape, configs=(None,)):
+    """Function templates, every shape of xlib.TMPL_SHAPES in turn (Hypothesis' generate phase alone leaves the
+    later shapes out of a few dozen draws)."""
+    for k, shape in enumerate(xlib.TMPL_SHAPES):
+        ctx.seed += 101 + k
+        try:
+            run_engine(ctx, front, list(configs), per_shape, ["c++"], with_template=shape, with_overloads=False,
+                       with_class=False, nfunc=(0, 2))
+        finally:
+            ctx.seed -= 101 + k
 
 
 def replay_case(ctx, rec):
